@@ -571,4 +571,35 @@ def rule_pair(ck):
     (o.ok() if ok else o.fail('binned_ecdf no longer returns None for an empty sample'))
 
 
-RULES = [rule_rank, rule_order_only, rule_pair]
+def rule_stateless(ck):
+    """D1.stateless: the empirical probabilities are functions of (sample, value) alone: the five functions declare no global /
+    nonlocal name and store into no module-level object, so nothing computed for one sample can be handed out for another (a memo
+    keyed by object identity returns the ecdf of the old contents after the array was refilled in place)"""
+    P = ck.prog
+    ck.clause('D1')
+    for q in ROOTS:
+        f = P.func(q)
+        o = ck.ob('C09-D1.stateless', f, 'no state kept between calls', f.node)
+        decl = [n for n in all_nodes(f) if isinstance(n, (ast.Global, ast.Nonlocal))]
+        mod_names = set(f.module.consts) if hasattr(f.module, 'consts') else set()
+        glob_stores = []
+        for n in all_nodes(f):
+            if isinstance(n, (ast.Subscript, ast.Attribute)) and isinstance(n.ctx, ast.Store):
+                base = n
+                while isinstance(base, (ast.Subscript, ast.Attribute)):
+                    base = base.value
+                if isinstance(base, ast.Name) and base.id not in f.locals and base.id not in f.params:
+                    glob_stores.append(n)
+            if isinstance(n, ast.Call) and isinstance(n.func, ast.Attribute) and n.func.attr in ('append', 'update', 'setdefault', 'add', 'insert', 'extend', 'pop', 'clear') \
+                    and isinstance(n.func.value, ast.Name) and n.func.value.id not in f.locals and n.func.value.id not in f.params:
+                glob_stores.append(n)
+        if decl:
+            o.fail('%s declares `%s`: a result remembered at module level is returned for a later call whose sample has other contents (same '
+                   'array object refilled in place, or a new object at a recycled address)' % (f.short, u(decl[0])))
+        elif glob_stores:
+            o.fail('%s writes into the module-level object `%s`' % (f.short, u(glob_stores[0])[:60]))
+        else:
+            o.ok()
+
+
+RULES = [rule_stateless, rule_rank, rule_order_only, rule_pair]
